@@ -227,6 +227,8 @@ func runC17(c *kit.Ctx) {
 	retryLoopsWait(c)
 	exceptionTableOracle(c)
 	probeClassifiesOutcome(c)
+	noWaitlessRecursion(c)
+	zkSessionIsClosed(c)
 
 	// (removed after fix 6dc62ae: "the retry list must not be emptied between the round's wait and the ServerError
 	// test". Since that repair every round that needs no back-off is capped by one of two counters with the same
